@@ -288,6 +288,72 @@ def _gen_case(r, ctx, model):
     return case
 
 
+FLAT_MODELS = ["gnb", "kmeans", "scaler", "linreg"]
+FLAT_VALUES = [2.0, -3.0, 1.0, -1.0, 0.5, 10.0, -0.25, 100.0]
+
+
+def gen_flat_case(r, ctx, model):
+    """degenerate BOUNDS: per-feature bounds where some features have ZERO width (lower == upper == c, mostly c != 0: a
+    constant / bias column) mixed with features of positive width.  A zero-width feature is constant once clipped, but
+    it still enters every per-group SUM with |c|: a record that changes group moves that sum in both groups, so the
+    feature needs its share of the budget like any other."""
+    d = r.randint(2, 6)
+    n_var = 1 if r.chance(0.45) else r.randint(1, d - 1)
+    flat = set(r.sample(list(range(d)), d - n_var))
+    lo, hi, _ = gen_bounds(r, d, allow_scalar=False)
+    for j in flat:
+        m = r.u01()
+        c = r.choice(FLAT_VALUES) if m < 0.6 else (round(r.uniform(-10, 10), 2) if m < 0.93 else 0.0)
+        lo[j] = hi[j] = float(c)
+    mode = r.choice(["in", "mixed", "corner", "corner"])
+    k = r.randint(2, 3)
+    n = max(r.randint(6, 24), 2 * k)
+    case = {"model": model, "seed": r.randint(0, 2 ** 31 - 2), "mode": "flat:" + mode, "flat": sorted(flat)}
+    p = {"epsilon": gen_eps(r), "lo": lo, "hi": hi, "scalar_bounds": False}
+    X = gen_rows(r, n, lo, hi, mode)
+    for row in X:                       # raw values of a zero-width feature need not equal the bound (they are clipped)
+        for j in flat:
+            if r.chance(0.15):
+                row[j] = lo[j] + r.normal()
+    case["X"] = X
+    if model == "gnb":
+        p["k"] = k
+        case["y"] = gen_labels(r, n, k)
+    elif model == "kmeans":
+        p["k"] = k
+        p["epsilon"] = r.loguniform(0.05, 5000.0)
+    elif model == "scaler":
+        p["with_std"] = r.chance(0.8)
+        p["with_mean"] = r.chance(0.8)
+    elif model == "linreg":
+        t = r.choice([1, 1, 2, 3])
+        p["t"], p["y1d"], p["fit_intercept"] = t, (t == 1 and r.chance(0.7)), r.chance(0.6)
+        ylo, yhi, _ = gen_bounds(r, t, allow_scalar=False)
+        if r.chance(0.3):
+            a = r.randint(0, t - 1)
+            ylo[a] = yhi[a] = float(r.choice(FLAT_VALUES))
+        p["ylo"], p["yhi"], p["yscalar"] = ylo, yhi, False
+        case["y"] = gen_rows(r, n, ylo, yhi, mode)
+    case["params"] = p
+    return case
+
+
+def flat_replacements(r, case, m):
+    """the usual replacement kinds plus, for labelled data, replacements that CHANGE THE GROUP of the record (label only;
+    label + opposite corner) — the group-changing neighbour is the one the flat features matter for"""
+    reps = gen_replacements(r, case, m)
+    if case["model"] == "gnb":
+        X, y, p = case["X"], case["y"], case["params"]
+        for kind in ("label", "label", "both"):
+            i = r.randint(0, len(X) - 1)
+            newy = (y[i] + 1 + r.randint(0, p["k"] - 2)) % p["k"]
+            x = list(X[i])
+            if kind == "both":
+                x = [p["hi"][j] if X[i][j] <= (p["lo"][j] + p["hi"][j]) / 2 else p["lo"][j] for j in range(len(x))]
+            reps.append({"index": i, "x": [float(v) for v in x], "y": newy, "kind": kind + ":flat"})
+    return reps
+
+
 def gen_shell_case(r, ctx, model):
     """norm-domain models on a thin shell: the largest (centred) row norm is data_norm*(1+delta) with every other row
     inside the ball — a clip that is skipped 'within tolerance' lets that row reach the mechanisms unclipped"""
@@ -1105,6 +1171,24 @@ def check(ctx):
     for case, reps in regression_cases(ctx.fork("regression")):
         check_case(ctx, case, reps)
         ctx.count("regression_families")
+    # degenerate bounds (zero-width features at non-zero values): direct accounting only (S); own random stream
+    rf = ctx.fork("flat-bounds")
+    for model in FLAT_MODELS:
+        for j in range(ctx.budget(24 if model == "gnb" else 10, 120)):
+            case = gen_flat_case(rf, ctx, model)
+            reps = flat_replacements(rf, case, 4)
+            try:
+                check_case(ctx, case, reps)
+            except Refused:
+                ctx.count("training_set_refused_" + model)
+                continue
+            except Exception as e:  # a crash of fit on a generated case is a bug of the generator, keep it visible
+                ctx.note(f"{model} (flat bounds): {type(e).__name__}: {str(e)[:160]}")
+                ctx.count("fit_errors")
+                if ctx.counters["fit_errors"] > 25:
+                    raise
+                continue
+            ctx.count("flat_bounds_" + model)
     r = ctx.fork("cases")
     per_model = ctx.budget(60, 500)
     n_reps = 6 if ctx.tier == "quick" else 8
